@@ -260,6 +260,11 @@ func (C06Mon) After(w *core.World, st *core.Step) {
 	}
 	raw0 := st.Pre.GoitFiles()["index"]
 	raw1 := st.Post.GoitFiles()["index"]
+	if pa := ParseArgv(st.Argv); st.Cmd() == "ls-files" && st.Exit != 0 && st.Signal == "" && post.IndexErr == nil && len(pa.Pos) == 0 && pa.OnlyFlags("-s", "--staged") {
+		// a staging-area file that decodes must be listed: a listing that fails makes every tracked path unaddressable
+		c.Oracle("C06.lsfiles-eq-file")
+		w.Fail("C06.lsfiles-eq-file", "listing-fails", "none", "%s exits %d (%s) although the index file decodes to %d entries", st.String(), st.Exit, clipS(firstLine(st.Stdout+st.Stderr), 160), len(post.Index.Entries))
+	}
 	if st.Cmd() == "ls-files" && st.Exit == 0 {
 		c.Oracle("C06.lsfiles-eq-file")
 		if post.IndexErr == nil {
@@ -274,7 +279,7 @@ func (C06Mon) After(w *core.World, st *core.Step) {
 				}
 			}
 			got := strings.TrimSuffix(st.Stdout, "\n")
-			if got != strings.Join(want, "\n") && len(st.Stdout) < 4000 {
+			if got != strings.Join(want, "\n") {
 				w.Fail("C06.lsfiles-eq-file", "listing-differs", "none", "%s prints %q but the index file decodes to %q", st.String(), clipS(got, 200), clipS(strings.Join(want, "\n"), 200))
 			}
 		}
@@ -375,7 +380,7 @@ func runC06CLI(c *core.Ctx) {
 			} else {
 				want = trackedBeneath(idx0, q)
 			}
-			op := []string{"rm", "restore", "add"}[w.Rng.IntN(3)]
+			op := []string{"rm", "restore", "add", "restore-staged"}[w.Rng.IntN(4)]
 			c.Oracle("C06.cli-addressable")
 			// the same name in another spelling ("./q", "q/" for a directory) names the same paths
 			qArg := q
@@ -424,6 +429,27 @@ func runC06CLI(c *core.Ctx) {
 				sort.Strings(back)
 				if strings.Join(back, "\x00") != strings.Join(want, "\x00") {
 					w.Fail("C06.cli-addressable", "restore-selects-wrong-set", trig, "restore %q with tracked %v recreated %v, should recreate %v (exit %d)", q, gitfmt.SortedKeys(idx0), back, want, st.Exit)
+				}
+			case "restore-staged":
+				// unstage every path (the base commit holds them all), then restore --staged q: exactly the selection is staged again
+				all := gitfmt.SortedKeys(idx0)
+				w.Goit(append([]string{"rm"}, all...)...)
+				if m, _ := idx(w.State()); len(m) != 0 {
+					break // rm did not empty the staging area: C04's concern
+				}
+				st := w.Goit("restore", "--staged", qArg)
+				idx1, _ := idx(st.Post)
+				var back []string
+				for p, id := range idx1 {
+					if idx0[p] == id {
+						back = append(back, p)
+					} else {
+						back = append(back, p+" (with another id)")
+					}
+				}
+				sort.Strings(back)
+				if strings.Join(back, "\x00") != strings.Join(want, "\x00") {
+					w.Fail("C06.cli-addressable", "restore-staged-selects-wrong-set", trig, "restore --staged %q with HEAD holding %v staged %v, should stage %v (exit %d: %s)", q, all, back, want, st.Exit, clipS(firstLine(st.Stdout+st.Stderr), 120))
 				}
 			case "add":
 				// delete every tracked file, then add q: exactly the selection must be unstaged
@@ -480,6 +506,18 @@ func runC06Histories(c *core.Ctx) {
 		k.Do("commit-all")
 		w.Write(k.freshPath(), k.content())
 		k.Do("commit-all")
+		if w.Hist%8 == 3 {
+			// scale: the staging-area file grows past 4 KiB (and past 8, 12 KiB), first in one step, then entry by entry
+			names := k.Populate(110 + k.R.IntN(260))
+			k.goit("add", ".")
+			k.goit("ls-files", "-s")
+			for i := 0; i < 6; i++ {
+				w.Write(names[k.R.IntN(len(names))]+".more", k.content())
+				k.goit("add", ".")
+			}
+			k.goit("ls-files", "-s")
+			k.Do("commit")
+		}
 		steps := c.Pick(36, 40)
 		for i := 0; i < steps; i++ {
 			k.Step()
